@@ -421,9 +421,11 @@ def build_corpus(rng, thorough):
         s["sid"] = sid
         recs = [rec for _, rec in s["subs"]]
         s["cls_storeinto_sub"] = G.has_storeinto_in_sub(recs)
-        s["cls_interleaved"] = s["kind"] == "router" and G.router_interleaved(
-            s["methods"], [x for x in s["subs"] if x not in s["methods"]])
         s["cls_nested"] = any(G.sub_has_nested(rec) for rec in recs)
+        # subroutines other than the methods whose scratch declaration is evaluated only at compile time: helpers, bare-call
+        # handlers, and subroutines defined inside a method body
+        others = [x for x in s["subs"] if x not in s.get("methods", [])] + (["nested"] if s["cls_nested"] else [])
+        s["cls_interleaved"] = s["kind"] == "router" and G.router_interleaved(s["methods"], others)
     return subjects, g
 
 
@@ -490,7 +492,7 @@ def session_summary(session):
 
 
 # --------------------------------------------------------------------------------------------------
-def shrink(session, still_differs, budget_s=45):
+def shrink(session, still_differs, budget_s=30):
     """Greedy removal of items (never the item that holds the differing compile)."""
     t0 = time.time()
     items = list(session["items"])
@@ -583,9 +585,10 @@ def main(argv):
     if thorough:
         seeds += [rng.randrange(3, 2**32 - 1) for _ in range(5)]
     idx = 0
-    # same order, no history, other hash seeds
-    for hs in seeds[1:]:
-        sessions.append(make_session("hashseed-only", idx, subjects, random.Random(12345), hs, history=False))
+    # one fixed order with repeated / interleaved configurations and no other activity, under every hash seed (seed 0 first:
+    # a difference that shows there is about repetition or order, one that shows only later is about the hash seed)
+    for hs in seeds:
+        sessions.append(make_session("repeats-no-history", idx, subjects, random.Random(12345), hs, history=False))
         idx += 1
     per_seed = 6 if thorough else 3
     for hs in seeds:
@@ -703,7 +706,9 @@ def main(argv):
         subj = by_sid[d["key"][0]]
         want = value_of(results[d["ref_session"]]["steps"][d["ref_step"]])
 
-        def still_differs(cand, d=d, want=want):
+        got0 = value_of(results[d["session"]]["steps"][d["step"]])
+
+        def still_differs(cand, d=d, want=want, got0=got0):
             sp = spec_of(cand)
             # locate the same occurrence of the key
             occ = [j for j, st in enumerate(spec_of(sessions[d["session"]])["steps"][:d["step"] + 1]) if st.get("key") == d["key"]]
@@ -712,8 +717,11 @@ def main(argv):
             if len(js) < nth:
                 return False
             r = run_real(sp, cand["hashseed"])
-            return "error" not in r and value_of(r["steps"][js[nth - 1]]) != want
-        small = shrink(s, still_differs) if not s["kind"] == "fresh" else s
+            if "error" in r:
+                return False
+            v = value_of(r["steps"][js[nth - 1]])
+            return v != want and v[0] == got0[0] and (v[0] == "ok" or v[1] == got0[1])
+        small = shrink(s, still_differs) if (s["kind"] != "fresh" and shown <= 2) else s
         sp = spec_of(small)
         occ = len([1 for st in spec_of(s)["steps"][:d["step"] + 1] if st.get("key") == d["key"]])
         js = [j for j, st in enumerate(sp["steps"]) if st.get("key") == d["key"]]
